@@ -67,12 +67,13 @@ fn main() {
     let mut rep = Report::new();
     let vp = ValidatorParser::new();
     // (token text as proc-macro2 prints it, value)
-    let floats: Vec<(&str, f64)> = vec![("0", 0.0), ("1", 1.0), ("10", 10.0), ("255", 255.0), ("1.5", 1.5), ("0.25", 0.25), ("1e3", 1e3), ("2.5e4", 2.5e4), ("5e-1", 0.5), ("1E2", 100.0), ("100.0", 100.0), ("1_000", 1000.0)];
-    let ints: Vec<(&str, u64)> = vec![("0", 0), ("1", 1), ("3", 3), ("10", 10), ("255", 255), ("65536", 65536), ("18446744073709551615", u64::MAX)];
+    let floats: Vec<(&str, f64)> = vec![("0", 0.0), ("1", 1.0), ("10", 10.0), ("255", 255.0), ("1.5", 1.5), ("0.25", 0.25), ("1e3", 1e3), ("2.5e4", 2.5e4), ("5e-1", 0.5), ("1E2", 100.0), ("100.0", 100.0), ("1_000", 1000.0),
+        // negative literals as the token stream prints them (`- 1`) and as written; suffixed literals
+        ("- 1", -1.0), ("- 2.5", -2.5), ("-7", -7.0), ("- 0.5e1", -5.0), ("2.5f64", 2.5), ("10u32", 10.0), ("- 3i64", -3.0)];
+    let ints: Vec<(&str, u64)> = vec![("0", 0), ("1", 1), ("3", 3), ("10", 10), ("255", 255), ("65536", 65536), ("18446744073709551615", u64::MAX), ("1_000", 1000), ("10usize", 10)];
     for (a, av) in &floats { for (b, bv) in &floats {
         for form in ["range (min = {A} , max = {B})", "range(min = {A}, max = {B})", "range (max = {B} , min = {A})", "range (min = {A} , max = {B} , message = \"m\")"] {
             let s = form.replace("{A}", a).replace("{B}", b);
-            if a.contains('_') || b.contains('_') { continue; } // underscores: f64::from_str rejects them (observed, out of scope here)
             rep.case("range_bounds_exact", &s, &|| {
                 match vp.verif_parse_range_from_tokens(&s) {
                     Some(r) if r.min == Some(*av) && r.max == Some(*bv) => Ok(format!("{:?}", (r.min, r.max))),
@@ -137,5 +138,41 @@ fn main() {
             match js_decode(lit) { Some(d) if d == *m => Ok(schema.clone()), other => Err(format!("literal `{}` decodes to {:?}, declared {:?}", lit, other, m)) }
         });
     }
+    // C11 render side for bounds: the numbers in .min(..)/.max(..) are exactly the declared ones, in the declared roles
+    // (also when min > max); C15: non-finite bounds never panic
+    let bound_of = |schema: &str, which: &str| -> Option<String> {
+        let st = schema.find(which)? + which.len();
+        let rest = &schema[st..];
+        let end = rest.find(|c| c == ')' || c == ',')?;
+        Some(rest[..end].trim().to_string())
+    };
+    let vals = [0.0, 1.0, -1.0, 10.0, -10.0, 1.5, -2.5, 1e3, 0.1, 1e21, -1e-7, 255.0];
+    for a in vals { for b in vals {
+        let vr = ValidatorAttributes { length: None, range: Some(RangeConstraint { min: Some(a), max: Some(b), message: None }), email: false, url: false, custom_message: None };
+        rep.case("range_bounds_rendered_exactly", &format!("range min={} max={}", a, b), &|| {
+            let schema = ZodSchemaBuilder::new(&cfg).build_schema(&number_ty, &Some(vr.clone()));
+            let mn = bound_of(&schema, ".min(").ok_or(format!("no .min( in `{}`", schema))?;
+            let mx = bound_of(&schema, ".max(").ok_or(format!("no .max( in `{}`", schema))?;
+            if mn.parse::<f64>().ok() != Some(a) || mx.parse::<f64>().ok() != Some(b) { return Err(format!("declared min={} max={}, schema `{}`", a, b, schema)); }
+            Ok(schema)
+        });
+    } }
+    let ivals: [u64; 6] = [0, 1, 3, 10, 255, u64::MAX];
+    for a in ivals { for b in ivals {
+        let va = ValidatorAttributes { length: Some(LengthConstraint { min: Some(a), max: Some(b), message: None }), range: None, email: false, url: false, custom_message: None };
+        rep.case("length_bounds_rendered_exactly", &format!("length min={} max={}", a, b), &|| {
+            let schema = ZodSchemaBuilder::new(&cfg).build_schema(&string_ty, &Some(va.clone()));
+            let mn = bound_of(&schema, ".min(").ok_or(format!("no .min( in `{}`", schema))?;
+            let mx = bound_of(&schema, ".max(").ok_or(format!("no .max( in `{}`", schema))?;
+            if mn.parse::<u64>().ok() != Some(a) || mx.parse::<u64>().ok() != Some(b) { return Err(format!("declared min={} max={}, schema `{}`", a, b, schema)); }
+            Ok(schema)
+        });
+    } }
+    for a in [f64::NAN, f64::INFINITY, f64::NEG_INFINITY, 0.0] { for b in [f64::NAN, f64::INFINITY, f64::NEG_INFINITY, 1.0] {
+        for msg in [None, Some("m".to_string())] {
+            let vr = ValidatorAttributes { length: None, range: Some(RangeConstraint { min: Some(a), max: Some(b), message: msg.clone() }), email: false, url: false, custom_message: None };
+            rep.case("non_finite_bounds_do_not_panic", &format!("range min={} max={} message={:?}", a, b, msg), &|| Ok(ZodSchemaBuilder::new(&cfg).build_schema(&number_ty, &Some(vr.clone()))));
+        }
+    } }
     rep.finish()
 }
